@@ -780,14 +780,25 @@ package sio
 //@   ghost calls int = 0
 //@   ghost rejected bool = false
 //@   ghost lasterr error = nil
+// Every middleware of the chain is shown the same two values: the NAME of the event (the first value made from
+// eventName) and the slice of the decoded arguments.
+//@   ghost nvo int = 0
+//@   callsite Kind skip
+//@   callsite CanInterface skip
+//@   callsite Interface skip
+//@   callsite ValueOf skip
+//@     requires nvo == 0 ==> typeis(arg0, string) && unbox(arg0, string) == eventName [C12.ev.middleware.shown.the.event.name]
+//@     update nvo = nvo + 1
 //@   callsite (*serverSocket).callMiddlewareFunc skip
 //@     requires !rejected [C12.ev.chain.stop]
-//@     requires calls < len(funcs) && arg0 == funcs[calls] && arg1 == values [C12.ev.chain.order]
+//@     requires calls < len(funcs) && arg0 == funcs[calls] && arg1 == in && len(in) == 2 && nvo == 2 [C12.ev.chain.order]
 //@     update calls = calls + 1
 //@     updateafter rejected = result != nil
 //@     updateafter lasterr = result
-//@   loop 0 invariant calls == rangeindex + 1 && !rejected
-//@   loop 0 invariant len(funcs) == old(len(s.middlewareFuncs)) && (forall k int :: 0 <= k && k < len(funcs) ==> funcs[k] == old(s.middlewareFuncs[k])) [C12.ev.chain.snapshot]
+//@   loop 0 invariant calls == 0 && !rejected && nvo == 0
+//@   loop 0 invariant len(funcs) == old(len(s.middlewareFuncs)) && (forall k int :: 0 <= k && k < len(funcs) ==> funcs[k] == old(s.middlewareFuncs[k]))
+//@   loop 1 invariant calls == rangeindex + 1 && !rejected && nvo == 2 && len(in) == 2
+//@   loop 1 invariant len(funcs) == old(len(s.middlewareFuncs)) && (forall k int :: 0 <= k && k < len(funcs) ==> funcs[k] == old(s.middlewareFuncs[k])) [C12.ev.chain.snapshot]
 //@   ensures result == nil <==> !rejected [C12.ev.chain.result]
 //@   ensures result == nil ==> calls == old(len(s.middlewareFuncs)) [C12.ev.chain.all]
 //@   ensures result != nil ==> result == lasterr [C12.ev.chain.carries]
@@ -799,8 +810,13 @@ package sio
 //@   opt safety off
 //@   ghost called int = 0
 //@   ghost retnil bool = false
+//@   callsite Type skip
+//@   callsite IsVariadic skip
 //@   callsite Call skip maypanic
-//@     requires arg0 == values [C12.ev.sees.values]
+//@     requires arg0 == values && called == 0 [C12.ev.sees.values]
+//@     update called = called + 1
+//@   callsite CallSlice skip maypanic
+//@     requires arg0 == values && called == 0 [C12.ev.sees.values.variadic]
 //@     update called = called + 1
 //@   callsite IsNil
 //@     updateafter retnil = result
@@ -821,6 +837,7 @@ package sio
 //@   callsite onError skip
 //@   callsite (*serverSocket).callMiddlewares skip
 //@     requires mwran == 0 [C12.ev.once]
+//@     requires arg1 == eventName [C12.ev.middlewares.get.the.events.name]
 //@     update mwran = mwran + 1
 //@     updateafter mwerr = result != nil
 //@   callsite (*eventHandler).call skip
@@ -1280,6 +1297,7 @@ package sio
 //@     update looked = looked + 1
 //@     updateafter hs = result
 //@   callsite (*serverSocket).onEvent skip
+//@     requires arg4 == eventName [C12.ev.dispatch.passes.the.events.name]
 //@     requires looked == 1 && rangeindex == calls && calls < len(hs) && arg0 == hs[calls] && arg1 == header && arg2 == decode [C01.dispatch.each.handler.once.server]
 //@     update calls = calls + 1
 //@   callsite (*serverSocket).onAck skip
